@@ -32,6 +32,7 @@ empty @is_you(%(ptypes)s) {
   try { !truth_is_defeat(%(B)s); write('n'); } undo { write('u'); }
   try { !truth_is_defeat(%(B)s); write('n'); } stop { write('s'); }
   try { !truth_is_defeat(not (%(B)s)); write('N'); } undo { write('U'); }
+  try { !truth_is_defeat(not (%(B)s)); write('M'); } stop { write('S'); }
   try { !d(%(B)s); write('m'); } undo { write('w'); }
   writeln();
 }
@@ -641,6 +642,11 @@ empty @is_you(int n, string s, const int[] v) { int a[n]; write('a'); if (n == 0
     for el, val in [('int', '1'), ('byte', "'b'"), ('bool', 'true'), ('string', '"s"')]:
         add('vla_len_' + el, 'empty @is_you(int n) { int before = 3; write(\'a\'); %s a[n]; write(\'b\'); write(a.length); if (n > 0) { a[0] = %s; a[n - 1] = %s; write(a[0]); } write(before); }' % (el, val, val), lens, s=200)
         add('vla_len_expr_' + el, 'int f(int n) { write(\'f\'); return n; }\nempty @is_you(int n) { write(\'a\'); %s a[f(n) * 1]; write(a.length); }' % el, [[-1], [0], [3]], s=200)
+    # stacks larger than the compiler accepts at 16 bits (rejected on a correct tree: then these cases are simply not run):
+    # the length guards rely on a negative length being larger, unsigned, than any possible free stack
+    for n in (-30000, -1, 40000 - 65536):
+        items.append(runner.Item(('flt', 'vla_len_huge_stack', n), 'empty @is_you(int n) { write(\'a\'); byte buf[n]; write(buf.length); int iq[n]; write(iq.length); write(\'b\'); }',
+                                 [str(n)], w=2, s=20000, meta={'family': 'fault:vla_len_huge_stack', 'classifier': {'site': 'vla_len_huge_stack'}}))
     # the same length guards at wider words: lengths whose BYTE size wraps around the word
     for w in (3, 4):
         mm = (1 << (8 * w - 1)) - 1
